@@ -228,8 +228,9 @@ def check_bulk(case, ev):
 def check_text_pairs(case, ev):
     """The pair relation through the TEXT layer: addresses written as tokens (optionally with a /len
     suffix) in lines handled by anonymize_ip_addr or FileAnonymizer.anonymize_io; images are parsed
-    back from the output.  Mask-shaped values and members of preserved networks are left alone by the
-    text layer by design and are not generated.  case: {fam, cfg, toks:[[int, suffix]], via}"""
+    back from the output.  Mask-shaped values are left alone by the text layer and are not generated;
+    members of preserved networks keep their value (their image is themselves) and take part in the
+    relation like any other token.  case: {fam, cfg, toks:[[int, suffix]], via}"""
     import ipaddress
 
     from netconan.ip_anonymization import anonymize_ip_addr
@@ -249,6 +250,11 @@ def check_text_pairs(case, ev):
     # usually all tokens on one line; "perline": one token per line (then through the stream API)
     joiner = "\n" if case.get("perline") else " "
     line = joiner.join(spelled.get(i, mk_text(n)) + suf for i, (n, suf) in enumerate(toks))
+    frag = case.get("frag")
+    if frag:
+        # text that looks like an address to the pattern but not to the parser, in front of the tokens
+        # (its own words are not address tokens: the oracle below looks at the tokens after it)
+        line = frag + " " + line
     if case.get("prelude"):
         # a short-lived anonymizer with OTHER options handles some of the same tokens first and is
         # dropped before the one under test is created (state keyed by object identity or by text
@@ -272,6 +278,8 @@ def check_text_pairs(case, ev):
     if exc is not None:
         return core.exc_finding(exc, case, "text/")
     parts = out.split()
+    if frag:
+        parts = parts[len(frag.split()) :]
     if len(parts) != len(toks):
         return Finding("text/token-count-changed", "%r -> %r" % (line, out), case)
     imgs = []
@@ -353,8 +361,13 @@ def t_bulk(shard, nshards, seed, ev, known, n=2, size=6000):
 def _text_case(draw):
     fam = draw(st.sampled_from([4, 4, 6]))
     W = 32 if fam == 4 else 128
-    cfg = draw(G.config(networks="never"))
+    cfg = draw(G.config(networks="maybe"))
     a, b, k = draw(G.pair(W))
+    if fam == 4 and cfg.get("networks") and draw(st.booleans()):
+        # one address inside / right next to a preserved network (inside it the text layer keeps the address:
+        # its image is itself, and the pair relation with every neighbour outside must still hold)
+        a = draw(G.addr_near(cfg["networks"]))
+        b = draw(G.neighbour(a, W))
     if fam == 6 and draw(st.booleans()):
         # shaped addresses (zero groups, network addresses, ...) whose spellings use '::' in every position
         a = draw(G.v6_int)
@@ -379,7 +392,7 @@ def _text_case(draw):
     from .c05 import MASKS
 
     img_of = draw(st.sampled_from(MASKS)) if fam == 4 and draw(st.integers(0, 3)) == 0 else None
-    return {"fam": fam, "cfg": cfg, "toks": toks, "via": draw(st.sampled_from(["line", "line", "io"])), "prelude": prelude, "img_of": img_of, "nonl": draw(st.integers(0, 3)) == 0, "perline": draw(st.integers(0, 2)) == 0}
+    return {"fam": fam, "cfg": cfg, "toks": toks, "via": draw(st.sampled_from(["line", "line", "io"])), "prelude": prelude, "img_of": img_of, "nonl": draw(st.integers(0, 3)) == 0, "perline": draw(st.integers(0, 2)) == 0, "frag": draw(st.sampled_from(["fe80:%x", "fe80:::%1", "via fe80:%eth0", "1.2.3.4.5", "12345::1 x"])) if draw(st.integers(0, 5)) == 0 else None}
 
 
 def t_text(shard, nshards, seed, ev, known, n=500):
